@@ -1,6 +1,7 @@
 package main
 
 import (
+	"bytes"
 	"fmt"
 	"strings"
 	"time"
@@ -197,6 +198,16 @@ func checkC20(r *Run) {
 			}
 		}
 	})
+	// addresses far into long texts (beyond 255 bytes and beyond the 16-bit range used elsewhere in the library)
+	big := bytes.Repeat([]byte("x"), 140000)
+	c0 := &enumCtx{r: r, st: newStats()}
+	for _, at := range []int{253, 254, 255, 256, 257, 65533, 65534, 65535, 65536, 65537, 66000, 131072, 131089} {
+		for _, a := range []string{"1.2.3.4", "255.255.255.255", "10.0.0.1x"} {
+			s := append(append(append([]byte(nil), big[:at]...), a...), "yy"...)
+			run(c0, s)
+		}
+	}
+	r.St.merge(c0.st)
 }
 
 func init() {
